@@ -27,7 +27,7 @@ PROPERTY = "C14"
 LEVEL = "fault_enumeration"
 RULE = (
     "close paths {stapled stream, stapled datagram, stream endpoint over an in-memory leaf, asyncio socket adapter (clean / unsent data "
-    "with a peer that reads later or never / another task parked in a receive), AsyncTCPNetworkClient connected / never connected / connecting / with a suspended sender / with another task blocked in send_packet() holding the send lock (also for the server-side client of a running AsyncTCPNetworkServer)} "
+    "with a peer that reads later or never / another task parked in a receive), AsyncTCPNetworkClient connected / never connected / connecting / with a suspended sender / with another task blocked in send_packet() holding the send lock (also for the server-side client of a running AsyncTCPNetworkServer), AsyncUDPNetworkClient connected (clean / sender blocked by EAGAIN holding the send lock / unsent datagram on a socket that never becomes writable)} "
     "x leaf faults {none, aclose raises OSError, aclose needs 2 checkpoints, aclose blocks forever} per leaf x one task.cancel() of the "
     "closing task placed at EVERY loop-iteration boundary x a second aclose() placed at every boundary (two placements per run, busy "
     "placements costed, bound 2 quick / 3 thorough); distinct_nontrivial = distinct (path, fault, how the close ended, placement shape)"
